@@ -94,7 +94,11 @@ func c03F1(l *core.Ledger, ep *entryPoint) {
 	}
 	waitOrExit := func(n sx.Node) bool {
 		switch x := n.Instr().(type) {
-		case *ssa.Return, *ssa.Go:
+		case *ssa.Return:
+			// a call that fails before it issued anything (an error the caller gets, or the
+			// caller's context had already ended) has no request that could be overtaken
+			return !failFastReturn(ep.fn, ep.ctx, x)
+		case *ssa.Go:
 			return true
 		case *ssa.Select:
 			return x.Blocking
@@ -415,4 +419,36 @@ func c03F4(l *core.Ledger, sl *serverLoop, rule string) {
 	if ok {
 		l.Check(held, rule, key+"/release-before-receive", sl.recv.Pos(), "mutex taken before the loop and re-taken after every handler start", "the per-connection mutex is not held when the first handler starts: its Release unlocks an unlocked mutex (fatal error) or the second request does not wait")
 	}
+}
+
+// failFastReturn: ret hands the caller an error that is non-nil by
+// construction, or lies on a path where the call's context was observed to
+// have ended (ctx.Err() != nil edge, ctx.Done() case).
+func failFastReturn(fn *ssa.Function, ctx *ssa.Parameter, ret *ssa.Return) bool {
+	n := sx.NodeOf(ret)
+	res := fn.Signature.Results()
+	for i := 0; i < res.Len() && i < len(ret.Results); i++ {
+		if types.Identical(res.At(i).Type(), types.Universe.Lookup("error").Type()) {
+			if nn, _ := errNonNilByConstruction(fn, ret.Results[i], n); nn {
+				return true
+			}
+		}
+	}
+	if ctx == nil {
+		return false
+	}
+	if doneCaseDominates(fn, ctx, n) {
+		return true
+	}
+	var edges []sx.Edge
+	m := func(o sx.Origin) bool {
+		c, ok := o.V.(*ssa.Call)
+		return o.Kind == sx.KCall && ok && c.Call.IsInvoke() && c.Call.Method.Name() == "Err" && sameCtx(c.Call.Value, ctx)
+	}
+	sx.AllInstrs(fn, func(_ sx.Node, in ssa.Instruction) {
+		if ifi, ok := in.(*ssa.If); ok && isErrNonNil(ifi, m) != 0 {
+			edges = append(edges, errEdge(ifi, m, true))
+		}
+	})
+	return edgesDominate(fn, edges, n)
 }
